@@ -14,6 +14,7 @@ import (
 	"pgregory.net/rapid"
 	"verifharness/internal/ev"
 	"verifharness/internal/gen"
+	"verifharness/internal/kf"
 )
 
 // ---------------------------------------------------------------- program
@@ -975,6 +976,15 @@ func (r *run) doWrite(ts *tranState, in Instr, op *logOp, off uint64) {
 // applyWrite performs one logical write on the real transaction and on the
 // model. Returns false if the transaction cannot continue.
 func (r *run) applyWrite(ts *tranState, in Instr, op *logOp, off uint64) bool {
+	if op.Kind == "update" && selfRefKeyAndFk(ts.w.table(op.Table), op.Old, op.New) {
+		if e, ok := kf.Known("C08", "selfref-update-key-and-fk"); ok {
+			r.cfg.Rec.Excluded("selfref-update-key-and-fk")
+			if r.cfg.Own["C08"] {
+				r.cfg.Rec.Known(e.What)
+			}
+			return true
+		}
+	}
 	tmp := ts.view.clone()
 	var ref *Refusal
 	var chs []change
@@ -1368,3 +1378,21 @@ func (p Program) Canon() string {
 
 // Draw is used by tests: draws a program with rapid.
 func Draw(t *rapid.T, o GenOpts) Program { return genProgram(t, o) }
+
+// selfRefKeyAndFk: a single update of a row of a self-referencing table that
+// changes the row's own referenced key and at the same time points its
+// foreign key at the old key value (known finding C08/selfref-update-key-and-fk).
+func selfRefKeyAndFk(td *TableDef, old, nw Row) bool {
+	for i := range td.Idx {
+		ix := &td.Idx[i]
+		if ix.Fk == nil || ix.Fk.Table != td.Name {
+			continue
+		}
+		oldKey, newKey := pick(old, ix.Fk.Cols), pick(nw, ix.Fk.Cols)
+		newFk := ix.tuple(nw)[:len(ix.Fk.Cols)]
+		if !tupleEq(oldKey, newKey) && !tupleEmpty(newFk) && tupleEq(newFk, oldKey) {
+			return true
+		}
+	}
+	return false
+}
